@@ -2,13 +2,35 @@ mod bodysim;
 mod net;
 mod sched;
 mod seams;
+mod sessim;
 mod srvsim;
+
+thread_local! {
+    static PANICS: std::cell::RefCell<Vec<String>> = const { std::cell::RefCell::new(Vec::new()) };
+}
+
+/// Panics inside the system under test are caught by the simulators; keep stderr quiet and keep
+/// the messages.
+pub fn quiet_panics() {
+    static ONCE: std::sync::Once = std::sync::Once::new();
+    ONCE.call_once(|| {
+        std::panic::set_hook(Box::new(|info| {
+            let msg = info.to_string();
+            PANICS.with(|p| p.borrow_mut().push(msg.lines().take(3).collect::<Vec<_>>().join(" | ")));
+        }));
+    });
+}
+
+pub fn take_panics() -> Vec<String> {
+    PANICS.with(|p| std::mem::take(&mut *p.borrow_mut()))
+}
 
 fn main() {
     let args: Vec<String> = std::env::args().skip(1).collect();
     let sim = args.first().map(|s| s.as_str()).unwrap_or("");
     match sim {
         "srvsim" => simcore::main_for::<srvsim::SrvSim>(&args[1..]),
+        "sessim" => simcore::main_for::<sessim::SesSim>(&args[1..]),
         "bodysim" => simcore::main_for::<bodysim::BodySim>(&args[1..]),
         _ => {
             eprintln!("usage: rt <bodysim|srvsim|sessim|storesim> check|batch|replay …");
